@@ -53,6 +53,7 @@ fn main() {
         i += 2;
     }
     SCALE.set(scale).ok();
+    THOROUGH.store(tier == "thorough", std::sync::atomic::Ordering::Relaxed);
     util::install_panic_hook();
     let cfg = RunCfg {
         threads,
